@@ -635,6 +635,9 @@ func runC06(args []string) error {
 			return err
 		}
 	}
+	sm.Notes = append(sm.Notes,
+		"not generated: deferred builtin println (yaegi writes it to Options.Stdout, compiled Go to stderr), panic values of struct type (the run-time prints them differently from fmt), goroutines, runtime.Goexit, os.Exit/log.Fatal",
+		"every case is also run as Eval(definitions); Eval(\"Main()\"); Eval(\"Probe()\") through Interpreter.Eval on one interpreter: same output, error of type interp.Panic, carried value (reflect.Value layers, kind) as predicted by Y, Probe() = 4242")
 	sm.DistinctNontriv = len(distinct)
 	sm.Rule = "programs = function tables (call trees of depth <= 4) over print/set/defer(named|method|literal|host|close|delete|in a loop)/panic(int|string|error)/" +
 		"seven run-time faults/call/recover/re-panic/return, systematic small shapes plus seeded sampling; distinct = distinct abstract programs; " +
